@@ -168,3 +168,301 @@ CONSTS = {
     'percent_encoding::NON_ALPHANUMERIC': lambda it, st: st.ref(Agg('percent_encoding::AsciiSet', (z3.BitVecVal(
         sum(1 << b for b in range(128) if not (chr(b).isalnum())), 128),))),
 }
+
+
+# ------------------------------------------------------------------ conjure_error::Error at the boundary (its inside is C17's subject)
+def error_record(kind, cause, cause_safe, etype, safe=(), unsafe=()):
+    return Agg('conjure_error::Error', (kind, cause, cause_safe, etype, tuple(safe), tuple(unsafe)))
+
+
+def M_error_service(it, ctx, args, st):
+    name = ctx.callee.segs[-1][0]
+    yield st, error_record('service', args[0], name.endswith('_safe'), args[1])
+
+
+def M_error_internal(it, ctx, args, st):
+    name = ctx.callee.segs[-1][0]
+    yield st, error_record('internal', args[0], name.endswith('_safe'), None)
+
+
+def M_error_with_param(it, ctx, args, st):
+    e, k, v = args
+    key = bstr_py(sval(st, k))
+    val = st.deref_all(v) if isinstance(v, Ptr) else v
+    f = list(e.fields)
+    idx = 4 if 'with_safe_param' in ctx.callee.segs[-1][0] else 5
+    f[idx] = f[idx] + ((key.decode() if key is not None else '?', val),)
+    yield st, Agg(e.name, tuple(f))
+
+
+def M_error_type_new(it, ctx, args, st):
+    yield st, Agg('conjure_error::' + ctx.callee.segs[-2][0], ())
+
+
+# ------------------------------------------------------------------ http::HeaderMap / HeaderValue
+# HeaderMap = Agg('http::HeaderMap', (entries,)) with entries a tuple of (lower-case name, GetAll value)
+# GetAll    = Agg('GetAll', (n: BV64 number of values present, items: tuple of HeaderValue))     (values beyond n are absent)
+# HeaderValue = Agg('http::HeaderValue', (bytes: BStr | None, abstract: parse payload | None))
+def header_value(bytes_=None, abstract=None):
+    return Agg('http::HeaderValue', (bytes_, abstract))
+
+
+def header_map(entries):
+    return Agg('http::HeaderMap', (tuple(entries),))
+
+
+def _hname(st, v):
+    v = st.deref_all(v) if isinstance(v, Ptr) else v
+    if isinstance(v, Agg) and v.name == 'http::HeaderName':
+        return v.fields[0]
+    if isinstance(v, BStr):
+        return bstr_py(v).decode().lower()
+    raise Unsupported(f'header name {v!r:.80}')
+
+
+def _lookup(st, hm, name):
+    hm = st.deref_all(hm)
+    for n, ga in hm.fields[0]:
+        if n == name:
+            return ga
+    return Agg('GetAll', (bv(0), ()))
+
+
+def M_hm_get_all(it, ctx, args, st):
+    yield st, _lookup(st, args[0], _hname(st, args[1]))
+
+
+def M_hm_get(it, ctx, args, st):
+    ga = _lookup(st, args[0], _hname(st, args[1]))
+    n, items = ga.fields
+    if not items:
+        yield st, it.none
+        return
+    yield st, it.opt(z3.UGT(n, bv(0)), st.ref(items[0]))
+
+
+def M_hm_contains(it, ctx, args, st):
+    ga = _lookup(st, args[0], _hname(st, args[1]))
+    yield st, z3.UGT(ga.fields[0], bv(0))
+
+
+def M_getall_iter(it, ctx, args, st):
+    ga = st.deref_all(args[0]) if isinstance(args[0], Ptr) else args[0]
+    yield st, Agg('It', ('hvals', ga, None, 0, None))
+
+
+def visible_ascii(s):
+    return z3.And(*[z3.Or(z3.UGE(bv(i), s.len), z3.And(z3.UGE(b, 32), z3.ULT(b, 127)), b == 9) for i, b in enumerate(s.bytes)]) if s.bytes else z3.BoolVal(True)
+
+
+def M_hv_to_str(it, ctx, args, st):
+    hv = st.deref_all(args[0])
+    bs, abstract = hv.fields
+    if abstract is not None:
+        # abstract header value: a text whose parse is carried along
+        yield st, it.ok(st.ref(Agg('AbstractStr', (abstract,))))
+        return
+    vis = visible_ascii(bs)
+    for s2, good in fork_bool(it, st, vis):
+        yield s2, (it.ok(s2.ref(bs)) if good else it.err(Agg('http::header::ToStrError', ())))
+
+
+def M_hv_from_static(it, ctx, args, st):
+    yield st, header_value(sval(st, args[0]))
+
+
+def M_hv_eq(it, ctx, args, st):
+    a, b = st.deref_all(args[0]), st.deref_all(args[1])
+    if a.fields[0] is None or b.fields[0] is None:
+        raise Unsupported('HeaderValue == on abstract values')
+    yield st, bstr_eq(a.fields[0], b.fields[0])
+
+
+# ------------------------------------------------------------------ mediatype (already-parsed symbolic structures)
+NAMES = {}
+
+
+def name_code(s):
+    s = s.lower()
+    if s not in NAMES:
+        NAMES[s] = len(NAMES) + 1
+    return NAMES[s]
+
+
+def mt_name(code):
+    return Agg('mediatype::Name', (code if z3.is_expr(code) else z3.BitVecVal(code, 8),))
+
+
+def media_type(it, ty, subty, suffix=None, params=()):
+    """ty/subty: Name values; suffix: Option enum of Name or None; params: tuple of (Name, Value)"""
+    return Agg('mediatype::MediaType', (ty, subty, suffix if suffix is not None else it.none, Seq(tuple(Agg('tuple', p) for p in params))))
+
+
+def parse_concrete_media_type(it, text):
+    m = re.fullmatch(r'\s*([!#$%&\'*+.^_`|~\w-]+)/([!#$%&\'*.^_`|~\w-]+?)(?:\+([!#$%&\'*.^_`|~\w-]+))?\s*((?:;.*)?)', text)
+    if not m:
+        return None
+    params = []
+    for p in [x.strip() for x in m.group(4).split(';') if x.strip()]:
+        if '=' not in p:
+            return None
+        k, v = p.split('=', 1)
+        params.append((mt_name(name_code(k.strip())), Agg('mediatype::Value', (bstr(v.strip().strip('"')),))))
+    suffix = it.some(mt_name(name_code(m.group(3)))) if m.group(3) else it.none
+    return media_type(it, mt_name(name_code(m.group(1))), mt_name(name_code(m.group(2))), suffix, params)
+
+
+def M_mt_parse(it, ctx, args, st):
+    v = st.deref_all(args[0])
+    if isinstance(v, Agg) and v.name == 'AbstractStr':
+        items = v.fields[0]
+        # an abstract text carries the results of parsing it as a list; MediaType::parse sees the single item
+        if len(items) != 1:
+            raise Unsupported('MediaType::parse of a multi-range abstract text')
+        ok, mt = items[0]
+        for s2, good in fork_bool(it, st, ok):
+            yield s2, (it.ok(mt) if good else it.err(Agg('mediatype::MediaTypeError', ())))
+        return
+    py = bstr_py(v)
+    if py is None:
+        raise Unsupported('MediaType::parse of a symbolic text (give the header an abstract parse)')
+    mt = parse_concrete_media_type(it, py.decode('latin1'))
+    yield st, (it.ok(mt) if mt is not None else it.err(Agg('mediatype::MediaTypeError', ())))
+
+
+def M_mtl_new(it, ctx, args, st):
+    v = st.deref_all(args[0])
+    if isinstance(v, Agg) and v.name == 'AbstractStr':
+        yield st, Agg('It', ('mtlist', v.fields[0], None, 0, None))
+        return
+    raise Unsupported('MediaTypeList::new of a concrete text')
+
+
+def M_mt_new(it, ctx, args, st):
+    yield st, media_type(it, args[0], args[1])
+
+
+def M_mt_essence(it, ctx, args, st):
+    m = st.deref_all(args[0])
+    yield st, Agg(m.name, (m.fields[0], m.fields[1], m.fields[2], Seq(())))
+
+
+def name_eq(a, b):
+    return a.fields[0] == b.fields[0]
+
+
+def M_name_eq(it, ctx, args, st):
+    yield st, name_eq(st.deref_all(args[0]), st.deref_all(args[1]))
+
+
+def M_name_ne(it, ctx, args, st):
+    yield st, z3.Not(name_eq(st.deref_all(args[0]), st.deref_all(args[1])))
+
+
+def opt_name_eq(it, a, b):
+    pa, pb = it.payload(a, 'Some'), it.payload(b, 'Some')
+    inner = name_eq(pa.fields[0], pb.fields[0]) if pa is not None and pb is not None else z3.BoolVal(True)
+    return z3.And(a.discr == b.discr, z3.Implies(a.discr == 1, inner))
+
+
+def M_mt_eq(it, ctx, args, st):
+    a, b = st.deref_all(args[0]), st.deref_all(args[1])
+    if a.fields[3].items or b.fields[3].items:
+        raise Unsupported('MediaType == with parameters (compared as maps in the crate)')
+    yield st, z3.And(name_eq(a.fields[0], b.fields[0]), name_eq(a.fields[1], b.fields[1]), opt_name_eq(it, a.fields[2], b.fields[2]))
+
+
+def M_mt_get_param(it, ctx, args, st):
+    m = st.deref_all(args[0])
+    nm = args[1]
+    # last matching parameter wins (params.iter().rev().find(..))
+    res = it.none
+    out = None
+    items = m.fields[3].items
+    conds = []
+    for item in reversed(items):
+        conds.append((name_eq(nm, item.fields[0]), item.fields[1]))
+    def go(st, k):
+        if k == len(conds):
+            yield st, it.none
+            return
+        c, val = conds[k]
+        for s2, hit in fork_bool(it, st, c):
+            if hit:
+                yield s2, it.some(val)
+            else:
+                yield from go(s2, k + 1)
+    yield from go(st, 0)
+
+
+def M_value_as_str(it, ctx, args, st):
+    v = st.deref_all(args[0]) if isinstance(args[0], Ptr) else args[0]
+    yield st, st.ref(v.fields[0])
+
+
+def M_cow_deref(it, ctx, args, st):
+    v = st.deref(args[0])
+    if isinstance(v, Enum):
+        raise Unsupported('Cow deref of an enum-modelled Cow')
+    yield st, args[0]
+
+
+def it_next_http(it, st, itv, fr):
+    kind, src, f, pos, cur = itv.fields
+    if kind == 'hvals':
+        n, items = src.fields
+        if pos >= len(items):
+            yield st, itv, None
+            return
+        for s2, more in fork_bool(it, st, z3.UGT(n, bv(pos))):
+            if more:
+                yield s2, Agg('It', ('hvals', src, None, pos + 1, None)), s2.ref(items[pos])
+            else:
+                yield s2, itv, None
+    elif kind == 'mtlist':
+        if pos >= len(src):
+            yield st, itv, None
+            return
+        present, ok, mt = src[pos] if len(src[pos]) == 3 else (z3.BoolVal(True),) + tuple(src[pos])
+        for s2, more in fork_bool(it, st, present):
+            if not more:
+                yield s2, itv, None
+                continue
+            nxt = Agg('It', ('mtlist', src, None, pos + 1, None))
+            for s3, good in fork_bool(it, s2, ok):
+                yield s3, nxt, (it.ok(mt) if good else it.err(Agg('mediatype::MediaTypeError', ())))
+    else:
+        raise Unsupported('iterator kind ' + kind)
+
+
+from . import models_std as _ms
+_ms.EXTRA_ITER_KINDS = {'hvals': it_next_http, 'mtlist': it_next_http}
+
+MODELS += [
+    (r'conjure_error::Error::service(_safe)?::<.*>|conjure_error::Error::propagated_service(_safe)?::<.*>', M_error_service),
+    (r'conjure_error::Error::internal(_safe)?::<.*>', M_error_internal),
+    (r'conjure_error::Error::with_(un)?safe_param::<.*>', M_error_with_param),
+    (r'conjure_error::(InvalidArgument|PermissionDenied|NotFound|Conflict|RequestEntityTooLarge|FailedPrecondition|Internal|Timeout)::new', M_error_type_new),
+    (r'http::HeaderMap::get_all::<.*>|http::header::HeaderMap::get_all::<.*>', M_hm_get_all),
+    (r'http::HeaderMap::get::<.*>|http::header::HeaderMap::get::<.*>', M_hm_get),
+    (r'http::HeaderMap::contains_key::<.*>', M_hm_contains),
+    (r'http::header::GetAll::<.*>::iter', M_getall_iter),
+    (r'<http::header::GetAll<.*> as std::iter::IntoIterator>::into_iter|<&http::header::GetAll<.*> as std::iter::IntoIterator>::into_iter', M_getall_iter),
+    (r'http::HeaderValue::to_str|http::header::HeaderValue::to_str', M_hv_to_str),
+    (r'http::HeaderValue::from_static|http::header::HeaderValue::from_static', M_hv_from_static),
+    (r'<http::HeaderValue as std::cmp::PartialEq>::eq', M_hv_eq),
+    (r'mediatype::MediaType::parse::<?.*>?|mediatype::MediaType::parse', M_mt_parse),
+    (r'mediatype::MediaTypeList::new', M_mtl_new), (r'mediatype::MediaType::new', M_mt_new),
+    (r'mediatype::MediaType::essence', M_mt_essence),
+    (r'<mediatype::Name as std::cmp::PartialEq>::eq', M_name_eq), (r'<mediatype::Name as std::cmp::PartialEq>::ne', M_name_ne),
+    (r'<mediatype::MediaType as std::cmp::PartialEq>::eq', M_mt_eq),
+    (r'<mediatype::MediaType as mediatype::ReadParams>::get_param', M_mt_get_param),
+    (r'mediatype::Value::as_str', M_value_as_str),
+    (r'<std::borrow::Cow<.*> as std::ops::Deref>::deref', M_cow_deref),
+]
+
+for _n, _s in (('ACCEPT', 'accept'), ('CONTENT_TYPE', 'content-type'), ('AUTHORIZATION', 'authorization'), ('COOKIE', 'cookie'),
+               ('CONTENT_LENGTH', 'content-length')):
+    CONSTS['http::header::' + _n] = (lambda s_: (lambda it, st: Agg('http::HeaderName', (s_,))))(_s)
+CONSTS['mediatype::names::_STAR'] = lambda it, st: mt_name(name_code('*'))
+CONSTS['mediatype::names::Q'] = lambda it, st: mt_name(name_code('q'))
